@@ -11,7 +11,7 @@
 From Coq Require Import Ascii String List Bool Arith ZArith NArith.
 From PTBase Require Import Exn PyStr PyNum PyVal Fmt FixedFormat Wire.
 From Gen Require Import GenTables GenMulgrid.
-From P Require Import Flt Lines MulgridIO RoundTrip Header Idem Fields Natural NatIdem Canon NameLists HdrIdem HdrOk ErrBound Margin Feet2.
+From P Require Import Flt Lines MulgridIO RoundTrip Header Idem Fields Natural NatIdem Canon NameLists HdrIdem HdrOk ErrBound Margin Feet2 Second.
 Import ListNotations.
 
 Definition colon : ascii := ":"%char.
@@ -209,7 +209,8 @@ Definition run_case (line : str) : str :=
               [kv "wf=" (wf g); kv "nwf=" (nwf g); kv "rt=" rt; kv "idemok=" (idem_ok g); kv "nidem=" (aidem_ok g); kv "idem=" idem;
                kv "namesok=" (hdr_ok (g_hdr g) && str_eqb (h_type (canon_header (g_hdr g))) (s2l supported_type) && names_canonical g && cmp_ok g);
                kv "names=" (str_eqb (show_names (canon g)) (show_names g));
-               kv "awf=" (awf g); kv "sephyp=" (names_hyp g); kv "mag=" (coords_mag (scale_or_one (h_unit (g_hdr g))) g)]
+               kv "awf=" (awf g); kv "sephyp=" (names_hyp g); kv "mag=" (coords_mag (scale_or_one (h_unit (g_hdr g))) g);
+               kv "aarith=" (aidem_arith g); kv "cnz=" (centres_nonzero g); kv "cok=" (centres_ok g)]
         end
       else if str_eqb k (s2l "N") then
         match geo_of_tokens args with
